@@ -162,6 +162,8 @@ def execute(case):
         except (KeyboardInterrupt, HarnessTimeout):
             raise
         except BaseException as e:
+            if not env.raised_in_rv(e):
+                raise  # a harness bug is never a verdict
             outcome = "error:" + type(e).__name__
         if outcome.startswith("error"):
             violations.append(_v("unexpected_exception", exc=outcome[6:], detail={"op": i}, **req))
